@@ -114,7 +114,9 @@ StepVerdict(tr, e, r, p) ==
          \* the one-shot tag is refused by the object under test AND by its twin fed plain bytes: the same data supplied through this call
          \* sequence (e.g. no encrypt()/decrypt() call at all instead of one call) authenticates differently from the one-shot computation
          THEN "verification of the one-shot tag fails (also with plain bytes): the tag depends on the sequence of calls that supplied the data"
-         ELSE IF e.twinexc = e.exc THEN "harness: the twin object raised the same exception - the generated history is not a legal one"
+         \* the history is legal (the model accepted it: r.sane) and the same data in one piece is accepted (the one-shot reference exists), yet
+         \* the call fails on the object and on its twin fed the same pieces as plain bytes: the failure comes with the segmentation
+         ELSE IF e.twinexc = e.exc THEN "call raised " \o e.exc \o " (also with plain bytes) although the same data in one piece is accepted: the outcome depends on the segmentation"
          ELSE IF (e.op = "verify" \/ e.op = "decrypt_and_verify") /\ e.hastag /\ TagExplainedBy(tr, e) # {} THEN Late(tr, CHOOSE i \in TagExplainedBy(tr, e) : TRUE, "tag")
          ELSE IF e.op = "verify" \/ e.op = "decrypt_and_verify" THEN "verification of the one-shot tag fails: tag depends on segmentation/buffer type"
          ELSE "call raised " \o e.exc \o " although the same data passed as bytes in one piece is accepted")
